@@ -421,6 +421,12 @@ class Normalizer(object):
 
     def resolve_pw(self, e, bound):
         for v, c in e.args:
+            if c is not sp.true and c.has(sp.floor):
+                # floors of index arithmetic inside a branch condition: reduce them first (verified floor rule), z3 sees linear arithmetic
+                try:
+                    c = c.replace(lambda x_: isinstance(x_, sp.floor), lambda x_: self.norm_floor(self.norm(x_.args[0], bound), bound))
+                except Exception:     # pragma: no cover
+                    pass
             if c is sp.true or self.holds(c, bound):
                 return v
             if self.holds(sp.Not(c), bound):
